@@ -6,8 +6,8 @@ import impl_hist  # noqa: F401
 from framework import Case
 
 PROP = "C12"
-GENERATED = ['SharedState', 'Core', 'Wrapper', 'SrcDecorate', 'Decorate', 'EvalLoop', 'OpSemantics', 'Resolve']  # generated files this check's tie depends on
-LEAN_MODULES = ["Properties.C12", "Properties.Core", "Properties.CoreWrap", "Properties.Prov.Decorate", "Properties.CoreDecorate", "Properties.CoreEval", "Properties.Tables", "Properties.CoreResolve"]
+GENERATED = ['SharedState', 'Core', 'Wrapper', 'SrcDecorate', 'Decorate', 'EvalLoop', 'OpSemantics', 'Resolve', 'SrcSurface']  # generated files this check's tie depends on
+LEAN_MODULES = ["Properties.C12", "Properties.Core", "Properties.CoreWrap", "Properties.Prov.Decorate", "Properties.CoreDecorate", "Properties.CoreEval", "Properties.Tables", "Properties.CoreResolve", "Properties.Prov.Surface"]
 RULE = (
     "corpus; histories over functions and methods with a provider object / \"self\" / an object (or a string other than \"self\") that does not implement the protocol / "
     "\"self\" on a function without self, the same method through two instances with mappings of their own: provider mappings empty, binding used and unused names, conflicting with a literal, referred to "
@@ -23,32 +23,37 @@ def gen(rng, tier) -> str:
     sh = rng.sample(SHAPES, 3)
     for i, s in enumerate(sh):
         steps.append(f"A|T{i}|FloatTensor,0,{s}")
-    kinds = {"p1": "fresh", "p2": "long", "p3": rng.choice(["bad", "bad", "badfalsy", "badstr"]), "p4": "falsy"}
+    kinds = {"p1": rng.choice(["fresh", "fresh", "inst"]), "p2": "long", "p3": rng.choice(["bad", "bad", "badfalsy", "badstr"]), "p4": "falsy"}
     for pid, kind in kinds.items():
-        steps.append(f"V|{pid}|{kind}|{rng.choice(['', 'k:3', 'k:3;n:4', 'a:2;k:3', 'z:9', 'k:2;n:4', 'k:3;n:6'])}")
+        steps.append(f"V|{pid}|{kind}|{rng.choice(['', 'k:3', 'k:3;n:4', 'a:2;k:3', 'z:9', 'k:2;n:4', 'k:3;n:6', 'k:0', 'k:0;n:1', 'a:0;k:3'])}")
     fns = {}
     for fid in ("f1", "f2", "f3", "f4"):
         pid = rng.choice(["p1", "p2", "p2", "p3", "p4", "p4", "self:p1", "self:p2", "self:p3", "self:p4", "selfraw", "-"])
         al = rng.randrange(3)
         ret = "-" if rng.random() < 0.6 else f"T{rng.randrange(3)}:0"
+        # how the function takes its tensor: a plain parameter / no parameter at all (a factory: only the return value is annotated) /
+        # an Optional parameter that callers may leave None — in the last two NO argument tensor is queued, the provider counts all the same
+        pstyle = rng.choice(["x"] * 6 + ["none", "opt"])
+        if pstyle == "none":
+            ret = f"T{rng.randrange(3)}:0"
         nested = "-"
         if ret != "-" and rng.random() < 0.3:
             # the body itself changes what a provider returns (a method that reconfigures its own instance for the next call): the
             # return value is still judged under the mapping the call STARTED with, the next call under the new one
             nested = f"set:{rng.choice(['p1', 'p2', 'p2', 'p4'])}={rng.choice(['k:3', 'k:5', 'k:3,n:4', 'k:4,n:2', 'a:2,k:3'])}"
-        steps.append(f"D|{fid}|{pid}|x=T{al}:0|{ret}|{nested}")
-        fns[fid] = (al, ret)
+        steps.append(f"D|{fid}|{pid}|{ {'x': f'x=T{al}:0', 'none': '', 'opt': f'x=T{al}:1'}[pstyle] }|{ret}|{nested}")
+        fns[fid] = (al, ret, pstyle)
         if pid.startswith("self:") and pid[5:] in ("p1", "p2", "p4") and rng.random() < 0.6:
             # the same method through a second instance of its class with a mapping of its own
             other = rng.choice([p for p in ("p1", "p2", "p4") if p != pid[5:]])
             steps.append(f"I|{fid}b|{fid}|{other}")
-            fns[fid + "b"] = (al, ret)
+            fns[fid + "b"] = (al, ret, pstyle)
     for _ in range(10 if tier == "quick" else 30):
         if rng.random() < 0.3:
-            steps.append(f"S|{rng.choice(['p1', 'p2', 'p3', 'p4'])}|{rng.choice(['', 'k:3', 'k:5', 'k:3;n:4', 'k:4;n:2', 'a:2;k:3'])}")
+            steps.append(f"S|{rng.choice(['p1', 'p2', 'p3', 'p4'])}|{rng.choice(['', 'k:3', 'k:5', 'k:3;n:4', 'k:4;n:2', 'a:2;k:3', 'k:0', 'a:0;k:3'])}")
             continue
         fid = rng.choice(list(fns))
-        al, ret = fns[fid]
+        al, ret, pstyle = fns[fid]
 
         def val(alias):
             dims = []
@@ -56,11 +61,14 @@ def gen(rng, tier) -> str:
                 if d == "...":
                     dims += [rng.choice([1, 2])] * rng.choice([0, 1])
                 else:
-                    dims.append(rng.choice([1, 2, 3, 3, 4, 5, 6, 12]))
+                    dims.append(rng.choice([0, 1, 2, 3, 3, 4, 5, 6, 12]))   # (0: an empty buffer — a size like any other, also as a provided value)
             return f"T,0:float32,{'.'.join(map(str, dims))}"
 
         r = "-" if ret == "-" else val(int(ret[1]))
-        steps.append(f"C|{fid}|x|{val(al)}|{r}")
+        if pstyle == "none":
+            steps.append(f"C|{fid}|||{r}")
+        else:
+            steps.append(f"C|{fid}|x|{'N' if pstyle == 'opt' and rng.random() < 0.6 else val(al)}|{r}")
     return "HIST\t" + "\t".join(steps)
 
 
@@ -110,7 +118,7 @@ def _expected(line: str):
                 exp.append(("decor", "decor pyexc TypeError"))   # "self" on a function without self is refused at decoration
                 fns[fid] = None
             else:
-                fns[fid] = (pid, params.split("=")[1].split(":")[0], None if ret == "-" else ret.split(":")[0])
+                fns[fid] = (pid, (params.split("=")[1].split(":")[0], params.split("=")[1].split(":")[1]) if params else None, None if ret == "-" else ret.split(":")[0])
         elif f[0] == "I":
             base = fns.get(f[2])
             fns[f[1]] = None if base is None else ("self:" + f[3], base[1], base[2])
@@ -145,8 +153,15 @@ def _expected(line: str):
                 _t, code, dims = v.split(",")
                 return oracle.Ent(name, ann[alias][0], ann[alias][1], code, tuple(int(x) for x in dims.split(".")) if dims else ())
 
-            ea = [ent("x", al, val)]
-            va, _ = oracle.spec_ctx(scope, ea, acc)
+            if al is None or (val == "N" and al[1] == "1"):
+                ea = []            # no parameter / an Optional parameter left None: nothing is queued for the arguments
+                va = "conforms"
+            elif val == "N":
+                exp.append(("call", "args-rejected"))   # None under a hint without `| None`
+                continue
+            else:
+                ea = [ent("x", al[0], val)]
+                va, _ = oracle.spec_ctx(scope, ea, acc)
             if va == "violates":
                 exp.append(("call", "args-rejected"))
             elif va == "conforms" and ral is None:
